@@ -47,12 +47,14 @@ CONSTANTS CodeKeys,      \* BOOLEAN
 \*   damaged : sequence of lazily loaded table kinds that are present but whose load fails
 \*             (gsub gpos gdef morx kern vhea vmtx images)
 \*   lookups : sequence of the layout lookups whose parsing is modelled
-\*             [tbl, idx, feat, typ, ext, sub, objs, nested]
+\*             [tbl, idx, feat, typ, ext, sub, l2, objs, nested]
 \*               tbl "GSUB"|"GPOS", idx lookup index, feat the feature that activates it,
 \*               objs the Coverage/ClassDef objects its sub-table refers to, in the order they are read:
 \*                 [kind "cov"|"cls", pos absolute position, rel position relative to the sub-table, content]
 \*               nested: indices of lookups applied through its rules
-\*               (typ, ext, sub tell the harness how to lay the bytes out; the model ignores them)
+\*               (typ, ext, sub tell the harness how to lay the bytes out, l2 whether the feature also belongs
+\*                to the font's second language system; the model ignores them - a call names the features
+\*                that are in force, `feats`)
 Range(s) == {s[i] : i \in DOMAIN s}
 IsDamaged(font, k) == k \in Range(font.damaged)
 
@@ -61,13 +63,14 @@ IsDamaged(font, k) == k \in Range(font.damaged)
 \*  images  : function key -> filter value the image tables were selected under (LazyLoad embedded_images:
 \*            one slot in the code; keyed by the filter in the intended design)
 \*  lookups : function key -> term        (lookups_index + cached_lookups)
+\*  supported : function <<script, lang>> -> term   (supported_features: the feature mask of a language system)
 \*  lazy    : function table kind -> "ok" (LazyLoad::Loaded) | "failed" (a load was attempted and failed: the
 \*            slot is still NotLoaded - the mark only records that the history went through a failing load)
 \*            | "absent" (defect StoreFailed only: Loaded(None) after a failed load)
 \*  parsed  : function <<tbl, key of lookup index>> -> term of the parsed lookup (LayoutCacheData.lookup_cache)
 \*  objs    : function <<tbl, kind, key of position>> -> term of the parsed object (coverages / classdefs)
 \*  filter  : current embedded image filter (configuration, set by set_embedded_image_filter)
-InitStateOf(font) == [font |-> font, glyph |-> <<>>, images |-> <<>>, lookups |-> <<>>, lazy |-> <<>>,
+InitStateOf(font) == [font |-> font, glyph |-> <<>>, images |-> <<>>, lookups |-> <<>>, supported |-> <<>>, lazy |-> <<>>,
                       parsed |-> <<>>, objs |-> <<>>, filter |-> "default"]
 PlainFont == [fam |-> "intact", damaged |-> <<>>, lookups |-> <<>>]
 InitState == InitStateOf(PlainFont)
@@ -162,6 +165,14 @@ ReadLookups(st, s, l, m, t) ==
         stale |-> IF st.lookups[k] # LookupsTerm(s, l, m, t) THEN {"lookupsIndex.tuple"} ELSE {}]
   ELSE [st |-> [st EXCEPT !.lookups = Put(@, k, LookupsTerm(s, l, m, t))], val |-> LookupsTerm(s, l, m, t), stale |-> {}]
 
+\* get_supported_features: the mask of a shaping call is intersected with the features of the language system
+SupportedTerm(s, l) == <<"supported", s, l>>
+ReadSupported(st, s, l) ==
+  IF <<s, l>> \in DOMAIN st.supported
+  THEN [st |-> st, val |-> st.supported[<<s, l>>],
+        stale |-> IF st.supported[<<s, l>>] # SupportedTerm(s, l) THEN {"supported.lang"} ELSE {}]
+  ELSE [st |-> [st EXCEPT !.supported = Put(@, <<s, l>>, SupportedTerm(s, l))], val |-> SupportedTerm(s, l), stale |-> {}]
+
 \* ---- parsing a lookup on first use: lookup_cache + ReadCache ----------------
 PosKey(o) == CASE PosKeyMode = "abs" -> o.pos
                [] PosKeyMode = "u16" -> o.pos % 65536
@@ -226,14 +237,16 @@ Shape(st, c) ==
       g4  == ReadLazy(g3.st, "morx")
       g5  == ReadLazy(g4.st, "kern")
       dc  == LookupGlyph(g5.st, "DC", "NotReq", "none")
-      lk  == IF g1.val # "ok" THEN [st |-> dc.st, val |-> "no gsub", stale |-> {}]
-             ELSE IF c.custom THEN [st |-> dc.st, val |-> LookupsTerm(c.script, c.lang, c.mask, c.tuple), stale |-> {}]
-             ELSE ReadLookups(dc.st, c.script, c.lang, c.mask, c.tuple)
+      sp  == IF g1.val # "ok" \/ c.custom THEN [st |-> dc.st, val |-> "n/a", stale |-> {}]
+             ELSE ReadSupported(dc.st, c.script, c.lang)
+      lk  == IF g1.val # "ok" THEN [st |-> sp.st, val |-> "no gsub", stale |-> {}]
+             ELSE IF c.custom THEN [st |-> sp.st, val |-> LookupsTerm(c.script, c.lang, c.mask, c.tuple), stale |-> {}]
+             ELSE ReadLookups(sp.st, c.script, c.lang, c.mask, c.tuple)
       sub == IF g1.val = "ok" THEN UseFeatures(lk.st, "GSUB", c.feats) ELSE Nothing(lk.st)
       pos == IF g2.val = "ok" THEN UseFeatures(sub.st, "GPOS", c.feats) ELSE Nothing(sub.st) IN
   [st |-> pos.st,
-   val |-> <<"shape", c.text, c.kern, <<g1.val, g2.val, g3.val, g4.val, g5.val>>, dc.val, lk.val, sub.val, pos.val>>,
-   stale |-> g1.stale \cup g2.stale \cup g3.stale \cup g4.stale \cup g5.stale \cup dc.stale \cup lk.stale
+   val |-> <<"shape", c.text, c.kern, <<g1.val, g2.val, g3.val, g4.val, g5.val>>, dc.val, sp.val, lk.val, sub.val, pos.val>>,
+   stale |-> g1.stale \cup g2.stale \cup g3.stale \cup g4.stale \cup g5.stale \cup dc.stale \cup sp.stale \cup lk.stale
              \cup sub.stale \cup pos.stale]
 
 \* Font::vertical_advance: vmtx, then vhea; an error and an absent table both answer None
@@ -271,6 +284,6 @@ PureStep(st, c) == Step(st, c).ret = Fresh(st, c)
 StaleIffImpure(st, c) == (Step(st, c).stale # {}) <=> ~PureStep(st, c)
 
 AllCauses == <<"glyph.dottedCircle", "images.filter", "lookupsIndex.tuple", "lazy.failedLoad",
-               "readCache.position", "lookupCache.index">>
+               "readCache.position", "lookupCache.index", "supported.lang">>
 CausesSeq(S) == SelectSeq(AllCauses, LAMBDA x : x \in S)
 =============================================================================
